@@ -2,7 +2,7 @@
 #pragma once
 #include "core.h"
 
-enum Kind { K_NONE, K_FIX, K_I8, K_I16, K_I32, K_I64, K_U8, K_U16, K_U32, K_U64, K_F32, K_F64, K_SHIFT, K_ANGLE, K_IDX361, K_IDX256, K_COUNT };
+enum Kind { K_NONE, K_FIX, K_I8, K_I16, K_I32, K_I64, K_U8, K_U16, K_U32, K_U64, K_LL, K_ULL, K_F32, K_F64, K_SHIFT, K_ANGLE, K_IDX361, K_IDX256, K_COUNT };
 struct Domain { Kind a, b; };
 // false: not a library entry point (harness helper) or unknown name
 bool entry_domain(const std::string & name, Domain & d);
@@ -10,5 +10,7 @@ const char * kind_name(Kind k);
 // deterministic boundary values of a kind (driven exhaustively, pairwise for two-argument entries)
 const std::vector<int64_t> & boundary(Kind k);
 int64_t random_of_kind(Rng & r, Kind k);
+// is the wrapper argument x inside the domain of kind k (arbitrary arguments arrive from --replay and from the fuzz arm)
+bool in_domain(Kind k, int64_t x);
 // second operand related to the first (sum / product / quotient frontiers); only meaningful for (K_FIX,K_FIX)
 int64_t related_fix(Rng & r, int64_t a);
